@@ -30,7 +30,9 @@ type compactCleaner struct {
 // rewriting segments such that they contain only the last message for a given
 // key.
 func newCompactCleaner(opts compactCleanerOptions) *compactCleaner {
-	if opts.MaxGoroutines == 0 {
+	// A negative value is not validated anywhere and is as meaningless as 0,
+	// so it takes the default too rather than sizing the scan with it.
+	if opts.MaxGoroutines <= 0 {
 		opts.MaxGoroutines = defaultCompactMaxGoroutines
 	}
 	return &compactCleaner{opts}
